@@ -181,6 +181,7 @@ def run(ck):
                "+ a cut inside the unpack; after each crash the tree is inspected and the next sync is run (good server / failing server); "
                "faults: HTTP 500, truncated body, garbage archive, archive corrupted in the middle; non-trivial = distinct "
                "(scenario, crash point or fault, follow-up)")
+    ck.exhaustive = not ck.quick and not ck.replay_case  # every mutation of every exercised sync x every exported plan
     ck.assumptions = ["a power cut is a stop before a Python-level mutation; tar's own work is observed through snapshots (a cut inside "
                       "the unpack = a prefix of the extracted files, the last one truncated)",
                       "process exit = the atexit handlers registered by the syncer run (graceful) or are dropped (crash)",
@@ -229,7 +230,7 @@ def run(ck):
         return [Unseen(tar_mod.subprocess, "run", counter, cut)]
 
     try:
-        nsc = 1 if ck.replay_case else ck.pick(2, 8)
+        nsc = 1 if ck.replay_case else ck.pick(2, 6)
         for sc in range(nsc):
             had_old = (sc % 3 != 1)
             if ck.replay_case:
